@@ -72,6 +72,7 @@ class Recorder:
 
     def __init__(self):
         self.inputs = None
+        self.scores = {}
         self.resolutions = []
 
     def install(self, aligner):
@@ -81,6 +82,7 @@ class Recorder:
 
         def resolveConflicts(segments):
             rec.inputs = list(segments)
+            rec.scores = {id(p): p.score for sg in segments for p in sg.positions}
             return orig(segments)
         resolver.resolveConflicts = resolveConflicts
         self._saved = []
@@ -291,6 +293,7 @@ def oracle_c15(E, ctx):
                 return
         used.append(owner)
         numeric.append(o.segmentScore == sum(p.score for p in o.positions))
+        numeric.extend(p.score == rec.scores[id(p)] for p in o.positions if id(p) in rec.scores)   # positions are not re-scored
     if len([u for u in used if u >= 0]) != len({u for u in used if u >= 0}):
         E.fail("each-input-segment-yields-at-most-one-result-segment")
     E.check("score-recomputed-as-sum-of-what-is-left", And(numeric))
